@@ -52,6 +52,9 @@ func (_this *MarkedObjectKeyableRule) OnArrayBegin(ctx *Context, arrayType event
 func (_this *MarkedObjectKeyableRule) OnChildContainerEnded(ctx *Context, dataType DataType) {
 	ctx.UnstackRule()
 	ctx.CurrentEntry.Rule.OnChildContainerEnded(ctx, dataType)
+	// A marked key delivered in chunked form (array begin, chunks, data) ends
+	// here. It must be registered exactly like one delivered as a whole array.
+	ctx.MarkObject(dataType)
 }
 
 // =============================================================================
